@@ -1833,6 +1833,11 @@ void move_object (object_t * item, object_t * dest) {
       if (ob->flags & O_DESTRUCTED)
         error ("*An object was destructed at call of " APPLY_INIT "()");
 
+      /* an init() moved the saved next object out of dest: its next_inv now
+       * continues the inventory of another room, stop the fan-out here */
+      if (ob->super != dest)
+        break;
+
       if (ob->flags & O_ENABLE_COMMANDS)
         {
           command_giver = ob;
@@ -1846,6 +1851,9 @@ void move_object (object_t * item, object_t * dest) {
 
       if (item->flags & O_DESTRUCTED)	/* marion */
         error ("*The object to be moved was destructed at call of " APPLY_INIT "()!");
+
+      if (ob->super != dest)	/* ob left during the call above: no init() between rooms */
+        continue;
 
       if (item->flags & O_ENABLE_COMMANDS)
         {
